@@ -210,7 +210,7 @@ func Run(conf core.Config, patterns ...string) *core.Result {
 	}
 	for k := range Exempt {
 		if !used[k] {
-			res.Brokenf("INIT.state: stale exemption %s", k)
+			res.Stale("INIT.state: stale exemption %s", k)
 		}
 	}
 	return res
